@@ -328,11 +328,14 @@ func nextGraphemeTokenInfo(buf []byte, state int, forceMergeNext bool, lastWasRI
 	case isVariationSelectorOnly(cluster):
 		merge = true
 	case isRegionalIndicator(cluster):
-		if nextLastWasRI {
+		// Only an unpaired indicator waits for its partner: a complete pair (a
+		// flag) that is followed by another flag must not swallow it.
+		unpaired := utf8.RuneCount(cluster)%2 == 1
+		if nextLastWasRI && unpaired {
 			merge = true
 			nextLastWasRI = false
 		} else {
-			nextLastWasRI = true
+			nextLastWasRI = unpaired
 		}
 	default:
 		nextLastWasRI = false
